@@ -9,6 +9,12 @@ pub const DELTAS: [i128; 7] = [-3, -2, -1, 0, 1, 2, 3];
 
 /// Boundary lattice of duration counts (seed independent, sorted, deduplicated, clamped to range).
 pub fn dur_lattice() -> Vec<i128> {
+    // computed once per thread (the coverage-guided driver enters a workload once per input)
+    thread_local! { static MEMO: std::cell::RefCell<Option<Vec<i128>>> = const { std::cell::RefCell::new(None) }; }
+    MEMO.with(|m| m.borrow_mut().get_or_insert_with(dur_lattice_build).clone())
+}
+
+fn dur_lattice_build() -> Vec<i128> {
     let mut v: Vec<i128> = vec![];
     let ks: [i128; 17] = [-32768, -32767, -32766, -4, -3, -2, -1, 0, 1, 2, 3, 4, 32765, 32766, 32767, 32768, 100];
     for k in ks {
@@ -134,6 +140,20 @@ pub fn reading_range(s: TimeScale, y0: i64, y1: i64) -> (i128, i128) {
 /// Interesting reading boundaries for a scale: zero, century/day/year boundaries, leap seconds (for
 /// UTC/TAI counts), limits of years 1 and 9999.
 pub fn reading_lattice(s: TimeScale, leap: &[(i64, i64)]) -> Vec<i128> {
+    // computed once per thread and (scale, table) pair
+    thread_local! { static MEMO: std::cell::RefCell<Vec<(TimeScale, Vec<(i64, i64)>, Vec<i128>)>> = const { std::cell::RefCell::new(Vec::new()) }; }
+    MEMO.with(|m| {
+        let mut m = m.borrow_mut();
+        if let Some(e) = m.iter().find(|e| e.0 == s && e.1 == leap) {
+            return e.2.clone();
+        }
+        let v = reading_lattice_build(s, leap);
+        m.push((s, leap.to_vec(), v.clone()));
+        v
+    })
+}
+
+fn reading_lattice_build(s: TimeScale, leap: &[(i64, i64)]) -> Vec<i128> {
     let mut v = vec![];
     let (lo, hi) = reading_range(s, 1, 9999);
     let z = greg_zero_ns(s);
